@@ -261,10 +261,10 @@ func runC01(r *core.Run) {
 		}
 	}
 	if r.Variant == "" {
-		for _, v := range []string{"encfirst", "encfirst+rev"} {
+		for _, v := range []string{"encfirst@3", "encfirst+rev@1"} {
 			r.RunVariantChild(v, 10*time.Minute, false)
 		}
-		r.Obs("fresh_process_variants", []string{"encfirst", "encfirst+rev"})
+		r.Obs("fresh_process_variants", []string{"encfirst@3", "encfirst+rev@1"})
 	}
 	r.Obs("max_abs_error_per_space", maxErr)
 	r.Obs("code_of_max_error_per_space", maxAt)
